@@ -32,6 +32,7 @@ RULE = ("server side: a hostile raw peer sends grammar-aware mutations of valid 
         "'.'/'..' or by full path (RFC 3659 7.7.4): list/recursive list return exactly the tree with one listing command per "
         "directory.  After the hostile session a fresh session must be able to MLSD and LIST the root (what the hostile session "
         "left in the tree breaks nobody).  distinct = distinct mutated inputs; non-trivial = the input differs from every valid seed line.")
+RULE += ("  " + 'Also (round 6): the parser calls of one case run in a child process under RLIMIT_CPU (30 CPU seconds; a normal case needs < 1): a call that never returns is a violation naming the function and its input, not a time-out of the harness.  Blank and white-space-only lines right before the end of the stream.')
 ASSUMPTIONS = ["the hostile peer's script is finite and ends with EOF (a peer that stays silent for ever is C16's subject)",
                "time budget per parser call 5 s (a 64 KiB PASV payload needs ~2 s because of a quadratic regular expression; "
                "bounded by the stream limit, so not a hang)"]
@@ -158,8 +159,15 @@ async def server_side(net, hyg, plan):
                         await asyncio.wait_for(p.reader.read(65536), 0.05)
                     except asyncio.TimeoutError:
                         pass
-                if rng.random() < 0.5:
+                r1 = rng.random()
+                if r1 < 0.35:
                     p.writer.write(mutate(rng, rng.choice(VALID_CMDS)))  # no line end before EOF
+                elif r1 < 0.65:
+                    # blank / white-space-only lines (keep-alives of some clients) right before the end of the stream
+                    tail = rng.choice([b"\r\n", b"\n", b" \r\n", b"\r\n\r\n", b"\t\n", b"   ", b"\r", b"\r\n \r\n\n"])
+                    sent.append(tail)
+                    mon["hostile_lines"] += 1
+                    p.writer.write(tail)
                 p.cut(rng.choice(["fin", "rst"]))
             except (ConnectionError, ProtocolGarbage, OSError):
                 p.cut("rst")
@@ -240,7 +248,53 @@ def run_server_side(plan):
 
 # ----------------------------------------------------------------------------- parsers
 
+PARSER_CPU_LIMIT_S = 30
+
+
 def run_parsers(plan):
+    """the parser calls run in a child process with a CPU-time limit (RLIMIT_CPU): a regular expression that never returns
+    cannot be interrupted from Python (the GIL is held inside the C matcher), so the verdict comes from the kernel's CPU
+    accounting - CPU seconds of this one process, not wall-clock time on a loaded machine.  A normal case uses < 1 CPU second."""
+    import json, mmap, os, resource, subprocess, sys, tempfile
+    from .. import boot
+    with tempfile.NamedTemporaryFile(prefix="c19-parsers-") as f:
+        f.write(b"\0" * 4096)
+        f.flush()
+
+        def limit():
+            resource.setrlimit(resource.RLIMIT_CPU, (PARSER_CPU_LIMIT_S, PARSER_CPU_LIMIT_S + 5))
+        code = ("import sys, json; from harness.checks import c19; "
+                "plan = json.loads(sys.stdin.read()); print(json.dumps(c19._run_parsers_inner(plan['plan'], plan['progress'])))")
+        env = dict(os.environ, PYTHONPATH=boot.VERIF_ROOT)
+        try:
+            p = subprocess.run([sys.executable, "-c", code], input=json.dumps({"plan": plan, "progress": f.name}),
+                               capture_output=True, text=True, preexec_fn=limit, timeout=1500, env=env, cwd=boot.VERIF_ROOT)
+        except subprocess.TimeoutExpired:
+            return {"violations": [], "monitors": {}, "sigs": [], "inconclusive": "parser child exceeded the wall-clock watchdog"}
+        if p.returncode == 0:
+            return json.loads(p.stdout.strip().splitlines()[-1])
+        with open(f.name, "rb") as g:
+            where = g.read(4096).rstrip(b"\0").decode("utf-8", "replace")
+        if p.returncode in (-signal.SIGXCPU, -signal.SIGKILL):
+            fn = where.split(" ", 1)[0]
+            return {"violations": [{"key": f"parser-hangs:{fn}",
+                                    "msg": f"more than {PARSER_CPU_LIMIT_S} CPU seconds without returning in {where[:300]}"}],
+                    "monitors": {"parser_calls": 1}, "sigs": [], "sample": {"parser_inputs": plan["n"]}}
+        return {"violations": [{"key": "parser-child-died", "msg": f"rc={p.returncode} at {where[:200]}: {p.stderr[-400:]}"}],
+                "monitors": {"parser_calls": 1}, "sigs": []}
+
+
+def _run_parsers_inner(plan, progress=None):
+    import mmap
+    mm = None
+    if progress:
+        _f = open(progress, "r+b")
+        mm = mmap.mmap(_f.fileno(), 4096)
+
+    def at(fn, arg):
+        if mm is not None:
+            b = (getattr(fn, "__name__", str(fn)) + " " + repr(arg)[:1500]).encode("utf-8", "replace")[:4000]
+            mm[:len(b) + 1] = b + b"\0"
     rng = random.Random(plan["seed"])
     c = aioftp.Client(path_io_factory=aioftp.MemoryPathIO)
     viol = []
@@ -255,6 +309,7 @@ def run_parsers(plan):
         if line not in seeds and len(sigs) < 400:
             sigs.append(sig_of(line.hex()))
         t0 = time.time()
+        at(c.parse_list_line, line)
         try:
             r = c.parse_list_line(line)
             n += 1
@@ -271,6 +326,7 @@ def run_parsers(plan):
             viol.append({"key": "parser-too-slow:parse_list_line", "msg": f"{line!r}: {time.time() - t0:.1f}s"})
         for fn, arg in ((c.parse_mlsx_line, line), (c.parse_list_line_unix, line), (c.parse_list_line_windows, line)):
             t0 = time.time()
+            at(fn, arg)
             try:
                 r = fn(arg)
                 n += 1
@@ -288,6 +344,7 @@ def run_parsers(plan):
                         (aioftp.Client.parse_directory_response, text), (aioftp.Client.parse_ls_date, datetext),
                         (aioftp.Client.parse_unix_mode, line[:12].decode("latin-1"))):
             t0 = time.time()
+            at(fn, arg)
             try:
                 r = fn(arg)
                 n += 1
